@@ -1,3 +1,89 @@
-//! placeholder, filled in below
+//! C09 (Engine K part) — `core::run_chain`: shape, order, burn-in, exact number of transitions,
+//! continuation.  Real code: `mini_mcmc::core::run_chain::<u32, M>` through the real ndarray.
+//! The chain is a user-defined `MarkovChain` whose state is its own transition count (from a
+//! symbolic start) so every row identifies the transition that produced it.
+
 use crate::Src;
-pub fn by_name(_name: &str) -> Option<fn(&mut Src)> { None }
+use crate::{chk, cov};
+use mini_mcmc::core::{run_chain, MarkovChain};
+
+pub struct Counter {
+    pub state: Vec<u32>,
+    pub steps: u32,
+}
+impl MarkovChain<u32> for Counter {
+    fn step(&mut self) -> &Vec<u32> {
+        self.steps += 1;
+        self.state[0] = self.state[0].wrapping_add(1);
+        &self.state
+    }
+    fn current_state(&self) -> &Vec<u32> {
+        &self.state
+    }
+}
+
+macro_rules! c09_body {
+    ($name:ident, $dim:expr, $nc:expr, $nd:expr, $nm:expr) => {
+        pub fn $name(src: &mut Src) {
+            const DIM: usize = $dim;
+            let start = src.u32();
+            let tag = src.u32();
+            // sizes are concrete per harness (symbolic sizes exhaust memory in CBMC); values are symbolic
+            let n_collect: usize = $nc;
+            let n_discard: usize = $nd;
+            let n_more: usize = $nm;
+            let mut st = vec![start];
+            if DIM == 2 {
+                st.push(tag);
+            }
+            let mut chain = Counter { state: st, steps: 0 };
+            let out = run_chain(&mut chain, n_collect, n_discard);
+            chk!(src, out.nrows() == n_collect && out.ncols() == DIM, "result has shape [n_collect, dim]");
+            if out.nrows() != n_collect || out.ncols() != DIM {
+                return;
+            }
+            chk!(src, chain.steps as usize == n_collect + n_discard, "exactly n_collect + n_discard transitions are performed");
+            let mut k = 0;
+            while k < n_collect {
+                let want = start.wrapping_add((n_discard + k + 1) as u32);
+                chk!(src, out[[k, 0]] == want, "entry k is the state after exactly n_discard + k + 1 transitions");
+                if DIM == 2 {
+                    chk!(src, out[[k, 1]] == tag, "every coordinate of the state is copied");
+                }
+                k += 1;
+            }
+            chk!(src, chain.state[0] == start.wrapping_add((n_collect + n_discard) as u32), "the chain is left at the last transition's state");
+            // continuation: a second run starts where the first one stopped
+            let out2 = run_chain(&mut chain, n_more, 0);
+            chk!(src, out2.nrows() == n_more, "second run has n_more rows");
+            if out2.nrows() != n_more {
+                return;
+            }
+            let mut k = 0;
+            while k < n_more {
+                let want = start.wrapping_add((n_discard + n_collect + k + 1) as u32);
+                chk!(src, out2[[k, 0]] == want, "two consecutive runs return what one longer run returns");
+                k += 1;
+            }
+            chk!(src, chain.steps as usize == n_collect + n_discard + n_more, "the second run performs exactly n_more transitions");
+            cov!(src, start == u32::MAX, "start value at the top of the range");
+            cov!(src, true, "end reached");
+        }
+    };
+}
+c09_body!(c09_runchain_d2_c2_d1_m1, 2, 2, 1, 1);
+c09_body!(c09_runchain_d1_c0_d2_m2, 1, 0, 2, 2);
+c09_body!(c09_runchain_d2_c1_d0_m1, 2, 1, 0, 1);
+c09_body!(c09_runchain_d1_c3_d2_m0, 1, 3, 2, 0);
+c09_body!(c09_runchain_d2_c3_d3_m2, 2, 3, 3, 2);
+
+pub fn by_name(name: &str) -> Option<fn(&mut Src)> {
+    Some(match name {
+        "c09_runchain_d2_c2_d1_m1" => c09_runchain_d2_c2_d1_m1,
+        "c09_runchain_d1_c0_d2_m2" => c09_runchain_d1_c0_d2_m2,
+        "c09_runchain_d2_c1_d0_m1" => c09_runchain_d2_c1_d0_m1,
+        "c09_runchain_d1_c3_d2_m0" => c09_runchain_d1_c3_d2_m0,
+        "c09_runchain_d2_c3_d3_m2" => c09_runchain_d2_c3_d3_m2,
+        _ => return None,
+    })
+}
